@@ -1,43 +1,63 @@
 (* C11 — Comparisons do not depend on operand order.
-   Property theorems only; proofs in Qty/CmpProofs.v (exact level) and
-   Qty/Struct.v (any number type).  The full property is FALSE of the code
-   under rounding arithmetic: C11_symmetry_refuted (known finding
-   C11-eq-one-sided; the f64 witness `40.5 firkin == (40.5 firkin ->
-   long_hundredweight)` is replayed on the implementation by the check). *)
+   Property theorems only; proofs in Qty/Struct.v (any number type) and
+   Qty/Proofs.v (exact level).  Model: Quantity::symmetric_partial_cmp (both
+   operands are converted into the unit of the other one) as introduced by the
+   fix of findings C11-eq-one-sided / C11-ord-one-sided; before the fix the
+   statement was false (`12 inch == 1 foot` false, `1 foot == 12 inch` true).
+
+   The only fact about the number type used by the order-independence theorems
+   is [cmp_antisym_law]: partial_cmp y x is the reverse of partial_cmp x y
+   (true of IEEE doubles; proved for the exact instance, QcN_cmp_antisym). *)
 From Coq Require Import List ZArith QArith Qcanon String Bool.
 From NV Require Import Qty.Model Qty.Exec Qty.Proofs Qty.Struct Qty.CmpProofs Qty.TableSem Qty.Good
                        Qty.Demo Qty.RoundZ.
 Import ListNotations.
 Local Open Scope Qc_scope.
 
-(* the full statement, at the level of the model for an arbitrary number type *)
-Definition C11_symmetry_full : Prop :=
+(* a == b equals b == a — any number type, any table, any operands (including
+   different dimensions, zero, NaN) *)
+Theorem C11_eq_sym :
   forall (T : Type) (N : numops T) tbl res keys a b,
-    qeq N tbl res keys a b = qeq N tbl res keys b a.
+    cmp_antisym_law N -> qeq N tbl res keys a b = qeq N tbl res keys b a.
+Proof. intros T N tbl res keys a b. exact (qeq_sym N tbl res keys a b). Qed.
+Print Assumptions C11_eq_sym.
 
-(* exact arithmetic: a == b equals b == a whenever each operand converts into
-   the other's unit (same dimension) *)
-Theorem C11_eq_sym_exact :
-  forall tbl, good_table tbl -> forall keys a b a' b',
-    unit_int (q_unit a) = true -> unit_int (q_unit b) = true ->
-    convert_to QcN tbl (resolve QcN tbl) keys b (q_unit a) = Ok b' ->
-    convert_to QcN tbl (resolve QcN tbl) keys a (q_unit b) = Ok a' ->
-    qeq QcN tbl (resolve QcN tbl) keys a b = qeq QcN tbl (resolve QcN tbl) keys b a.
-Proof.
-  intros tbl G keys a b a' b'. exact (qeq_sym tbl _ keys (good_scale_pos tbl G) a b a' b').
-Qed.
-Print Assumptions C11_eq_sym_exact.
+(* a < b equals b > a, a <= b equals b >= a (as results: errors and panics included) *)
+Theorem C11_ord_sym :
+  forall (T : Type) (N : numops T) tbl res keys op a b,
+    cmp_antisym_law N ->
+    vm_cmp N tbl res keys (flip op) b a = vm_cmp N tbl res keys op a b.
+Proof. intros T N tbl res keys op a b. exact (vm_cmp_flip N tbl res keys op a b). Qed.
+Print Assumptions C11_ord_sym.
 
-(* exact arithmetic: a < b equals b > a, a <= b equals b >= a (and vice versa) *)
-Theorem C11_ord_sym_exact :
-  forall tbl, good_table tbl -> forall keys op a b x y,
-    unit_int (q_unit a) = true -> unit_int (q_unit b) = true ->
-    vm_cmp QcN tbl (resolve QcN tbl) keys op a b = Ok x ->
-    vm_cmp QcN tbl (resolve QcN tbl) keys (flip op) b a = Ok y -> x = y.
-Proof.
-  intros tbl G keys op a b x y. exact (vm_cmp_flip tbl _ keys (good_scale_pos tbl G) op a b x y).
-Qed.
-Print Assumptions C11_ord_sym_exact.
+(* != is the negation of == *)
+Theorem C11_ne :
+  forall (T : Type) (N : numops T) tbl res keys a b,
+    qne N tbl res keys a b = negb (qeq N tbl res keys a b).
+Proof. intros. apply ne_is_not_eq. Qed.
+Print Assumptions C11_ne.
+
+(* every ordering comparison with a NaN operand is false *)
+Theorem C11_nan_false :
+  forall (T : Type) (N : numops T) tbl res keys op a b,
+    n_is_nan N (q_val a) = true \/ n_is_nan N (q_val b) = true ->
+    vm_cmp N tbl res keys op a b = Ok false.
+Proof. intros T N tbl res keys op a b. exact (nan_cmp_false N tbl res keys op a b). Qed.
+Print Assumptions C11_nan_false.
+
+(* when the ordering of a against b is defined (non-NaN operands, same
+   dimension, converted operands not NaN) exactly one of a < b, a == b, a > b
+   holds, and <=, >= are their unions *)
+Theorem C11_trichotomy_f :
+  forall (T : Type) (N : numops T) tbl res keys a b c,
+    pcmp N tbl res keys a b = OOk c ->
+    vm_cmp N tbl res keys CLt a b = Ok (is_lt c)
+    /\ qeq N tbl res keys a b = is_eq c
+    /\ vm_cmp N tbl res keys CGt a b = Ok (is_gt c)
+    /\ vm_cmp N tbl res keys CLe a b = Ok (negb (is_gt c))
+    /\ vm_cmp N tbl res keys CGe a b = Ok (negb (is_lt c)).
+Proof. intros T N tbl res keys a b c. exact (trichotomy_struct N tbl res keys a b c). Qed.
+Print Assumptions C11_trichotomy_f.
 
 (* exact arithmetic: the ordering is the ordering of the physical quantities *)
 Theorem C11_ord_exact :
@@ -50,60 +70,36 @@ Proof.
 Qed.
 Print Assumptions C11_ord_exact.
 
-(* any number type: != is the negation of == *)
-Theorem C11_ne :
-  forall (T : Type) (N : numops T) tbl res keys a b,
-    qne N tbl res keys a b = negb (qeq N tbl res keys a b).
-Proof. intros. apply ne_is_not_eq. Qed.
-Print Assumptions C11_ne.
-
-(* any number type: every ordering comparison with a NaN operand is false *)
-Theorem C11_nan_false :
-  forall (T : Type) (N : numops T) tbl res keys op a b,
-    n_is_nan N (q_val a) = true \/ n_is_nan N (q_val b) = true ->
-    vm_cmp N tbl res keys op a b = Ok false.
-Proof. intros T N tbl res keys op a b. exact (nan_cmp_false N tbl res keys op a b). Qed.
-Print Assumptions C11_nan_false.
-
-(* any number type whose == agrees with partial_cmp (IEEE): when the ordering of
-   a against b is defined (non-NaN operands, same dimension, converted operand
-   not NaN) exactly one of a < b, a == b, a > b holds, and <=, >= are their unions *)
-Theorem C11_trichotomy_f :
-  forall (T : Type) (N : numops T) tbl res keys a b c,
-    (forall x y, n_eqb N x y = match n_cmp N x y with Some Eq => true | _ => false end) ->
-    pcmp N tbl res keys a b = OOk c ->
-    vm_cmp N tbl res keys CLt a b = Ok (is_lt c)
-    /\ qeq N tbl res keys a b = is_eq c
-    /\ vm_cmp N tbl res keys CGt a b = Ok (is_gt c)
-    /\ vm_cmp N tbl res keys CLe a b = Ok (negb (is_gt c))
-    /\ vm_cmp N tbl res keys CGe a b = Ok (negb (is_lt c)).
-Proof. intros T N tbl res keys a b c. exact (trichotomy_struct N tbl res keys a b c). Qed.
-Print Assumptions C11_trichotomy_f.
-
-(* REFUTED: with a rounding division (integers, truncation) the one-sided
-   conversion of the right operand makes == asymmetric:  a = 4 b,  b = 1 a'
-   where a' = 3 b:   4 b == 1 a'  converts 1 a' to 3 b  -> false,
-                      1 a' == 4 b  converts 4 b to 4/3 = 1 a' -> true.
-   Same shape as the f64 witness 40.5 firkin == (40.5 firkin -> long_hundredweight). *)
-Theorem C11_symmetry_refuted :
-  exists (T : Type) (N : numops T) tbl res keys a b,
-    (forall x y, n_add N x y = n_add N y x)
-    /\ qeq N tbl res keys a b = false /\ qeq N tbl res keys b a = true.
+(* exact arithmetic: == is equality of the physical quantities *)
+Theorem C11_eq_exact :
+  forall tbl, good_table tbl -> forall keys a b b',
+    unit_int (q_unit a) = true -> unit_int (q_unit b) = true ->
+    convert_to QcN tbl (resolve QcN tbl) keys b (q_unit a) = Ok b' ->
+    qeq QcN tbl (resolve QcN tbl) keys a b
+    = match Qc_cmp (DenQ (resolve QcN tbl) a) (DenQ (resolve QcN tbl) b) with Eq => true | _ => false end.
 Proof.
-  exists Z, ZN, rz_tbl, rz_res, rz_keys,
-         (qnew 4%Z [mkF 0 (Metric 0) (Qc_of_Z 1)]), (qnew 1%Z [mkF 1 (Metric 0) (Qc_of_Z 1)]).
-  split; [exact Z.add_comm | split; vm_compute; reflexivity].
+  intros tbl G keys a b b'. exact (qeq_exact tbl _ keys (good_scale_pos tbl G) a b b').
 Qed.
-Print Assumptions C11_symmetry_refuted.
+Print Assumptions C11_eq_exact.
 
-Theorem C11_symmetry_full_refuted : ~ C11_symmetry_full.
-Proof.
-  intros H. destruct C11_symmetry_refuted as (T & N & tbl & res & keys & a & b & _ & E1 & E2).
-  rewrite (H T N tbl res keys a b) in E1. congruence.
-Qed.
-Print Assumptions C11_symmetry_full_refuted.
+(* ---- non-vacuity.
+   (1) the law holds for the exact instance and for the rounding arithmetic ZN;
+   (2) in ZN (truncating division) the former witness of the asymmetry
+       4 b vs 1 a' (a' = 3 b) now compares equal in both orders;
+   (3) exact level, demo table. *)
+Example C11_law_exact : cmp_antisym_law QcN.
+Proof. exact QcN_cmp_antisym. Qed.
 
-(* ---- non-vacuity (exact level, demo table): 1 ft < 13 in, 13 in > 1 ft, 12 in == 1 ft both ways *)
+Example C11_law_rounding : cmp_antisym_law ZN.
+Proof. intros x y. simpl. unfold opp_o. simpl. f_equal. apply Z.compare_antisym. Qed.
+
+Example C11_former_witness :
+  let a := qnew 4%Z [mkF 0 (Metric 0) (Qc_of_Z 1)] in
+  let b := qnew 1%Z [mkF 1 (Metric 0) (Qc_of_Z 1)] in
+  qeq ZN rz_tbl rz_res rz_keys a b = true /\ qeq ZN rz_tbl rz_res rz_keys b a = true
+  /\ pcmp ZN rz_tbl rz_res rz_keys a b = OOk Eq.
+Proof. repeat split; vm_compute; reflexivity. Qed.
+
 Example C11_nonvacuous :
   vm_cmp QcN demo_tbl D_res D_keys CLt (qz 1 (u1 4)) (qz 13 (u1 3)) = Ok true
   /\ vm_cmp QcN demo_tbl D_res D_keys CGt (qz 13 (u1 3)) (qz 1 (u1 4)) = Ok true
